@@ -775,4 +775,969 @@ theorem reach_run (w : World) (ops : List Op) : Reach w (run w ops) := by
   unfold run
   exact reach_foldl _ _ w _ (Reach.refl _) (fun w op => reach_step w op)
 
+
+/-! ### availability bookkeeping: active_procs = number of RUNNING procs -/
+
+theorem setPState_active (w : World) (h p : Nat) (st : PState) (h' : Nat) :
+    ((setPState w h p st).host h').active = (w.host h').active +
+      (if h' = h ∧ (w.proc h p).state ≠ st then
+        (if (w.proc h p).state = .running then -1 else if st = .running then 1 else 0) else 0) := by
+  unfold setPState
+  by_cases e : (w.proc h p).state = st
+  · simp [e]
+  · simp only [e, if_false, ne_eq, not_false_eq_true, and_true]
+    by_cases e1 : (w.proc h p).state = .running
+    · simp only [e1, if_true, World.updProc, World.updHost]
+      by_cases e2 : h' = h
+      · subst e2; simp; omega
+      · simp [e2]
+    · simp only [e1, if_false]
+      by_cases e3 : st = .running
+      · simp only [e3, if_true, World.updProc, World.updHost]
+        by_cases e2 : h' = h
+        · subst e2; simp
+        · simp [e2]
+      · simp [e3, World.updProc]
+
+theorem avail_setPState {w : World} (h p : Nat) (st : PState) (hp : p < (w.host h).nprocs) (hA : Avail w) :
+    Avail (setPState w h p st) := by
+  intro h'
+  rw [setPState_active, hA h']
+  unfold runningCnt
+  rw [(setPState_host w h p st h').1]
+  by_cases e : h' = h
+  · subst e
+    have key := sumTo_update (w.host h').nprocs p
+      (fun q => if (w.proc h' q).state = .running then (1 : Int) else 0)
+      (fun q => if ((setPState w h' p st).proc h' q).state = .running then (1 : Int) else 0) hp
+      (by intro q hq; simp only [(setPState_proc w h' p st h' q).2.2.2.2]; simp [hq])
+    rw [key]
+    simp only [(setPState_proc w h' p st h' p).2.2.2.2, and_self, if_true, true_and]
+    by_cases e1 : (w.proc h' p).state = st
+    · simp [e1]
+    · simp only [ne_eq, e1, not_false_eq_true, if_true]
+      by_cases e2 : (w.proc h' p).state = .running
+      · have : st ≠ .running := fun e3 => e1 (e2.trans e3.symm)
+        simp [e2, this]; omega
+      · by_cases e3 : st = .running <;> simp [e2, e3]
+  · simp only [e, false_and, if_false, Int.add_zero]
+    apply sumTo_congr
+    intro q _
+    simp only [(setPState_proc w h p st h' q).2.2.2.2]
+    simp [e]
+
+theorem avail_congr {a b : World} (hh : ∀ h, (b.host h).active = (a.host h).active ∧ (b.host h).nprocs = (a.host h).nprocs)
+    (hp : ∀ h p, (b.proc h p).state = (a.proc h p).state) (hA : Avail a) : Avail b := by
+  intro h
+  rw [(hh h).1, hA h]
+  unfold runningCnt
+  rw [(hh h).2]
+  apply sumTo_congr
+  intro q _; rw [hp]
+
+theorem avail_prim {a b : World} (p : Prim a b) (hA : Avail a) : Avail b := by
+  cases p with
+  | misc => exact avail_congr (a := a) (fun _ => ⟨rfl, rfl⟩) (fun _ _ => rfl) hA
+  | host h f hf =>
+    refine avail_congr (a := a) ?_ (fun _ _ => rfl) hA
+    intro h'; simp only [World.updHost]; by_cases e : h' = h <;> simp [e, (hf _).1, (hf _).2.1]
+  | proc h p f hf =>
+    refine avail_congr (a := a) (fun _ => ⟨rfl, rfl⟩) ?_ hA
+    intro h' p'; simp only [World.updProc]; by_cases e : h' = h ∧ p' = p <;> simp [e, (hf _).1]
+  | disable h p hp =>
+    refine avail_setPState (w := a.updProc h p _) h p .overloaded hp ?_
+    refine avail_congr (a := a) (fun _ => ⟨rfl, rfl⟩) ?_ hA
+    intro h' p'; simp only [World.updProc]; by_cases e : h' = h ∧ p' = p <;> simp [e]
+  | enable h p hp hs ht => exact avail_setPState _ _ _ hp hA
+  | killedTick h p hs =>
+    refine avail_congr (a := a) (fun _ => ⟨rfl, rfl⟩) ?_ hA
+    intro h' p'; simp only [World.updProc]; by_cases e : h' = h ∧ p' = p <;> simp [e]
+  | emit => exact avail_congr (a := a) (fun _ => ⟨rfl, rfl⟩) (fun _ _ => rfl) hA
+  | dispatch => exact avail_congr (a := a) (fun _ => ⟨rfl, rfl⟩) (fun _ _ => rfl) hA
+  | tick => exact avail_congr (a := a) (fun _ => ⟨rfl, rfl⟩) (fun _ _ => rfl) hA
+
+theorem avail_reach {a b : World} (h : Reach a b) : Avail a → Avail b :=
+  Reach.inv (fun _ _ => avail_prim) h
+
+theorem sumTo_one (n : Nat) : sumTo n (fun _ => 1) = n := by
+  induction n with
+  | zero => rfl
+  | succ n ih => simp [sumTo, ih]
+
+theorem avail_init (balance : Nat) (wkr : Bool) (nslots : Nat) (specs : List HostSpec) :
+    Avail (initWorld balance wkr nslots specs) := by
+  intro h
+  unfold runningCnt
+  simp only [initWorld]
+  have key : ∀ o : Option HostSpec, (specHost h o).active =
+      sumTo (specHost h o).nprocs (fun p => if (specProc h p o).state = .running then 1 else 0) := by
+    intro o
+    cases o with
+    | none => simp [specHost, specProc, sumTo]
+    | some sp => simp [specHost, specProc, sumTo_one]
+  exact key _
+
+/-! ### the disable window -/
+
+/-- an OVERLOADED proc was disabled at most disable-time seconds into the future -/
+def WInv (w : World) : Prop :=
+  ∀ h p, (w.proc h p).state = .overloaded → (w.proc h p).disabledUntil ≤ w.now + (w.host h).disableTime
+
+/-- proc p of host h is out of rotation at least until D -/
+def Win (h p : Nat) (D : Int) (w : World) : Prop :=
+  (w.proc h p).state = .overloaded ∧ D ≤ (w.proc h p).disabledUntil
+
+theorem disable_proc (a : World) (h p h' p' : Nat) :
+    let b := setPState (a.updProc h p fun P => { P with disabledUntil := a.now + (a.host h).disableTime }) h p .overloaded
+    (b.proc h' p').state = (if h' = h ∧ p' = p then .overloaded else (a.proc h' p').state) ∧
+    (b.proc h' p').disabledUntil =
+      (if h' = h ∧ p' = p then a.now + (a.host h).disableTime else (a.proc h' p').disabledUntil) := by
+  intro b
+  have P := setPState_proc (a.updProc h p fun P => { P with disabledUntil := a.now + (a.host h).disableTime }) h p .overloaded h' p'
+  refine ⟨?_, ?_⟩
+  · rw [P.2.2.2.2]; simp only [World.updProc]; by_cases e : h' = h ∧ p' = p <;> simp [e]
+  · rw [P.2.2.1]; simp only [World.updProc]; by_cases e : h' = h ∧ p' = p <;> simp [e]
+
+theorem winv_prim {a b : World} (pr : Prim a b) (hW : WInv a) : WInv b := by
+  have S := static_prim pr
+  cases pr with
+  | misc => exact hW
+  | host h f hf =>
+    intro h' p' hs
+    have := hW h' p' hs
+    rw [S.disableTime]; exact this
+  | proc h p f hf =>
+    intro h' p' hs
+    simp only [World.updProc] at hs ⊢
+    by_cases e : h' = h ∧ p' = p
+    · simp only [e, and_self, if_true] at hs ⊢
+      rw [(hf _).1] at hs; rw [(hf _).2.1]
+      obtain ⟨rfl, rfl⟩ := e; exact hW _ _ hs
+    · simp only [e, if_false] at hs ⊢; exact hW _ _ hs
+  | disable h p hp =>
+    intro h' p' hs
+    have D := disable_proc a h p h' p'
+    simp only at D
+    rw [D.1] at hs; rw [D.2, S.disableTime]
+    have hn : (setPState (a.updProc h p fun P => { P with disabledUntil := a.now + (a.host h).disableTime }) h p .overloaded).now = a.now :=
+      (setPState_other _ h p .overloaded).2.2.2.2.1
+    rw [hn]
+    by_cases e : h' = h ∧ p' = p
+    · obtain ⟨rfl, rfl⟩ := e; simp
+    · simp only [e, if_false] at hs ⊢; exact hW _ _ hs
+  | enable h p hp hs' ht =>
+    intro h' p' hs
+    have P := setPState_proc a h p .running h' p'
+    have hn : (setPState a h p .running).now = a.now := (setPState_other _ h p .running).2.2.2.2.1
+    rw [P.2.2.2.2] at hs; rw [P.2.2.1, S.disableTime, hn]
+    by_cases e : h' = h ∧ p' = p
+    · simp [e] at hs
+    · simp only [e, if_false] at hs; exact hW _ _ hs
+  | killedTick h p hk =>
+    intro h' p' hs
+    simp only [World.updProc] at hs ⊢
+    by_cases e : h' = h ∧ p' = p
+    · obtain ⟨rfl, rfl⟩ := e
+      simp at hs; rw [hk] at hs; cases hs
+    · simp only [e, if_false] at hs ⊢; exact hW _ _ hs
+  | emit => exact hW
+  | dispatch => exact hW
+  | tick dt =>
+    intro h' p' hs
+    have := hW h' p' hs
+    show (a.proc h' p').disabledUntil ≤ a.now + (dt : Int) + (a.host h').disableTime
+    omega
+
+theorem win_prim {a b : World} {h p : Nat} {D : Int} (pr : Prim a b) (hW : WInv a) (hnow : b.now ≤ D)
+    (hwin : Win h p D a) :
+    Win h p D b ∧ (b.log = a.log ∨ ∃ e, b.log = e :: a.log ∧ ∀ s, e ≠ .dispatch s h p) := by
+  obtain ⟨hst, hD⟩ := hwin
+  cases pr with
+  | misc => exact ⟨⟨hst, hD⟩, Or.inl rfl⟩
+  | host h' f hf => exact ⟨⟨hst, hD⟩, Or.inl rfl⟩
+  | proc h' p' f hf =>
+    refine ⟨?_, Or.inl rfl⟩
+    unfold Win
+    simp only [World.updProc]
+    by_cases e : h = h' ∧ p = p'
+    · obtain ⟨rfl, rfl⟩ := e
+      simp only [and_self, if_true, (hf _).1, (hf _).2.1]; exact ⟨hst, hD⟩
+    · simp only [e, if_false]; exact ⟨hst, hD⟩
+  | disable h' p' hp =>
+    have Dp := disable_proc a h' p' h p
+    simp only at Dp
+    have O := setPState_other (a.updProc h' p' fun P => { P with disabledUntil := a.now + (a.host h').disableTime }) h' p' .overloaded
+    refine ⟨?_, Or.inl O.2.2.2.2.2.1⟩
+    unfold Win
+    rw [Dp.1, Dp.2]
+    by_cases e : h = h' ∧ p = p'
+    · obtain ⟨rfl, rfl⟩ := e
+      have := hW h p hst
+      simp; omega
+    · simp only [e, if_false]; exact ⟨hst, hD⟩
+  | enable h' p' hp hs' ht =>
+    have P := setPState_proc a h' p' .running h p
+    have O := setPState_other a h' p' .running
+    rw [O.2.2.2.2.1] at hnow
+    refine ⟨?_, Or.inl O.2.2.2.2.2.1⟩
+    unfold Win
+    rw [P.2.2.2.2, P.2.2.1]
+    by_cases e : h = h' ∧ p = p'
+    · obtain ⟨rfl, rfl⟩ := e; omega
+    · simp only [e, if_false]; exact ⟨hst, hD⟩
+  | killedTick h' p' hk =>
+    refine ⟨?_, Or.inl rfl⟩
+    unfold Win
+    simp only [World.updProc]
+    by_cases e : h = h' ∧ p = p'
+    · obtain ⟨rfl, rfl⟩ := e; rw [hk] at hst; cases hst
+    · simp only [e, if_false]; exact ⟨hst, hD⟩
+  | emit e he =>
+    refine ⟨⟨hst, hD⟩, Or.inr ⟨e, rfl, ?_⟩⟩
+    intro s hs; subst hs; simp [isDispatch] at he
+  | dispatch s' h' p' hp hs' =>
+    refine ⟨⟨hst, hD⟩, Or.inr ⟨_, rfl, ?_⟩⟩
+    intro s hs
+    cases hs
+    rw [hs'] at hst; cases hst
+  | tick dt => exact ⟨⟨hst, hD⟩, Or.inl rfl⟩
+
+theorem winv_reach {a b : World} (h : Reach a b) : WInv a → WInv b :=
+  Reach.inv (fun _ _ => winv_prim) h
+
+theorem window_reach {a b : World} {h p : Nat} {D : Int} (hr : Reach a b) (hW : WInv a)
+    (hwin : Win h p D a) (hnow : b.now ≤ D) :
+    Win h p D b ∧ ∃ new, b.log = new ++ a.log ∧ ∀ e, e ∈ new → ∀ s, e ≠ .dispatch s h p := by
+  induction hr with
+  | refl => exact ⟨hwin, [], rfl, by simp⟩
+  | step hr' pr ih =>
+    rename_i w' w''
+    have hn' : w'.now ≤ D := Int.le_trans (static_prim pr).now hnow
+    obtain ⟨hw', new, hlog, hnew⟩ := ih hn'
+    obtain ⟨hw'', hl⟩ := win_prim pr (winv_reach hr' hW) hnow hw'
+    refine ⟨hw'', ?_⟩
+    rcases hl with hl | ⟨e, hl, he⟩
+    · exact ⟨new, by rw [hl, hlog], hnew⟩
+    · refine ⟨e :: new, by rw [hl, hlog]; rfl, ?_⟩
+      intro e' he' s
+      rcases List.mem_cons.mp he' with rfl | h2
+      · exact he s
+      · exact hnew e' h2 s
+
+theorem winv_init (balance : Nat) (wkr : Bool) (nslots : Nat) (specs : List HostSpec) :
+    WInv (initWorld balance wkr nslots specs) := by
+  intro h p hs
+  simp only [initWorld] at hs
+  have : ∀ o : Option HostSpec, (specProc h p o).state ≠ .overloaded := by
+    intro o; cases o <;> simp [specProc]
+  exact absurd hs (this _)
+
+
+/-! ### gw_host_get: what each balance mode returns -/
+
+def LcInv (w : World) (S : Nat → Prop) (acc : Int × Option Nat) : Prop :=
+  (∀ j, S j → (w.host j).active ≠ 0 → acc.1 ≤ (w.host j).load) ∧
+  (∀ k, acc.2 = some k → S k ∧ (w.host k).active ≠ 0 ∧ (w.host k).load = acc.1 ∧
+        ∀ j, S j → j < k → (w.host j).active ≠ 0 → acc.1 < (w.host j).load) ∧
+  (acc.2 = none → acc.1 = intMax) ∧ acc.1 ≤ intMax
+
+theorem lc_fold (w : World) (l : List Nat) (acc : Int × Option Nat) (S : Nat → Prop)
+    (hsorted : l.Pairwise (· < ·)) (hS : ∀ j, S j → ∀ i, i ∈ l → j < i)
+    (hacc : LcInv w S acc) : LcInv w (fun j => S j ∨ j ∈ l) (l.foldl (lcStep w) acc) := by
+  induction l generalizing acc S with
+  | nil => simpa using hacc
+  | cons a l ih =>
+    simp only [List.foldl_cons]
+    have hs' := List.pairwise_cons.mp hsorted
+    have := ih (lcStep w acc a) (fun j => S j ∨ j = a) hs'.2
+      (by
+        intro j hj i hi
+        rcases hj with hj | rfl
+        · exact hS j hj i (List.mem_cons_of_mem _ hi)
+        · exact hs'.1 i hi)
+      (by
+        obtain ⟨h1, h2, h3, h4⟩ := hacc
+        unfold lcStep
+        by_cases ha : (w.host a).active = 0
+        · simp only [ha, if_true]
+          refine ⟨?_, ?_, h3, h4⟩
+          · intro j hj hact
+            rcases hj with hj | rfl
+            · exact h1 j hj hact
+            · exact absurd ha hact
+          · intro k hk
+            obtain ⟨a1, a2, a3, a4⟩ := h2 k hk
+            refine ⟨Or.inl a1, a2, a3, ?_⟩
+            intro j hj hjk hact
+            rcases hj with hj | rfl
+            · exact a4 j hj hjk hact
+            · exact absurd ha hact
+        · simp only [ha, if_false]
+          by_cases hlt : (w.host a).load < acc.1
+          · simp only [hlt, if_true]
+            refine ⟨?_, ?_, by simp, by simp; omega⟩
+            · intro j hj hact
+              rcases hj with hj | rfl
+              · have := h1 j hj hact; simp; omega
+              · simp
+            · intro k hk
+              simp at hk; subst hk
+              refine ⟨Or.inr rfl, ha, rfl, ?_⟩
+              intro j hj hjk hact
+              rcases hj with hj | rfl
+              · have := h1 j hj hact; simp; omega
+              · omega
+          · simp only [hlt, if_false]
+            refine ⟨?_, ?_, h3, h4⟩
+            · intro j hj hact
+              rcases hj with hj | rfl
+              · exact h1 j hj hact
+              · omega
+            · intro k hk
+              obtain ⟨a1, a2, a3, a4⟩ := h2 k hk
+              refine ⟨Or.inl a1, a2, a3, ?_⟩
+              intro j hj hjk hact
+              rcases hj with hj | rfl
+              · exact a4 j hj hjk hact
+              · have := hS k a1 j List.mem_cons_self; omega)
+    refine ⟨?_, ?_, this.2.2.1, this.2.2.2⟩
+    · intro j hj hact
+      apply this.1 j _ hact
+      rcases hj with hj | hj
+      · exact Or.inl (Or.inl hj)
+      · rcases List.mem_cons.mp hj with rfl | hj
+        · exact Or.inl (Or.inr rfl)
+        · exact Or.inr hj
+    · intro k hk
+      obtain ⟨a1, a2, a3, a4⟩ := this.2.1 k hk
+      refine ⟨?_, a2, a3, ?_⟩
+      · rcases a1 with (a1 | rfl) | a1
+        · exact Or.inl a1
+        · exact Or.inr List.mem_cons_self
+        · exact Or.inr (List.mem_cons_of_mem _ a1)
+      · intro j hj hjk hact
+        apply a4 j _ hjk hact
+        rcases hj with hj | hj
+        · exact Or.inl (Or.inl hj)
+        · rcases List.mem_cons.mp hj with rfl | hj
+          · exact Or.inl (Or.inr rfl)
+          · exact Or.inr hj
+
+theorem range_pairwise (n : Nat) : (List.range n).Pairwise (· < ·) := by
+  simpa using List.pairwise_lt_range (n := n)
+
+theorem lcPick_spec (w : World) :
+    LcInv w (fun j => j < w.nhosts) ((List.range w.nhosts).foldl (lcStep w) (intMax, none)) := by
+  have := lc_fold w (List.range w.nhosts) (intMax, none) (fun _ => False) (range_pairwise _)
+    (by intro j hj; exact hj.elim) ⟨by intro j hj; exact hj.elim, by simp, by simp, by simp⟩
+  simpa using this
+
+def HashInv (w : World) (base : UInt32) (S : Nat → Prop) (acc : UInt32 × Option Nat) : Prop :=
+  (∀ j, S j → (w.host j).active ≠ 0 → base ^^^ (w.host j).gwHash ≤ acc.1) ∧
+  (∀ k, acc.2 = some k → S k ∧ (w.host k).active ≠ 0 ∧ base ^^^ (w.host k).gwHash = acc.1) ∧
+  (acc.2 = none → acc.1 = 0 ∧ ∀ j, S j → (w.host j).active = 0)
+
+theorem hash_fold (w : World) (base : UInt32) (l : List Nat) (acc : UInt32 × Option Nat) (S : Nat → Prop)
+    (hacc : HashInv w base S acc) :
+    HashInv w base (fun j => S j ∨ j ∈ l) (l.foldl (hashStep w base) acc) := by
+  induction l generalizing acc S with
+  | nil => simpa using hacc
+  | cons a l ih =>
+    simp only [List.foldl_cons]
+    have := ih (hashStep w base acc a) (fun j => S j ∨ j = a)
+      (by
+        obtain ⟨h1, h2, h3⟩ := hacc
+        unfold hashStep
+        by_cases ha : (w.host a).active = 0
+        · simp only [ha, if_true]
+          refine ⟨?_, ?_, ?_⟩
+          · intro j hj hact
+            rcases hj with hj | rfl
+            · exact h1 j hj hact
+            · exact absurd ha hact
+          · intro k hk
+            obtain ⟨a1, a2, a3⟩ := h2 k hk
+            exact ⟨Or.inl a1, a2, a3⟩
+          · intro hn
+            refine ⟨(h3 hn).1, ?_⟩
+            intro j hj
+            rcases hj with hj | rfl
+            · exact (h3 hn).2 j hj
+            · exact ha
+        · simp only [ha, if_false]
+          by_cases hle : acc.1 ≤ base ^^^ (w.host a).gwHash
+          · simp only [hle, if_true]
+            refine ⟨?_, ?_, by simp⟩
+            · intro j hj hact
+              rcases hj with hj | rfl
+              · exact UInt32.le_trans (h1 j hj hact) hle
+              · exact UInt32.le_refl _
+            · intro k hk
+              simp at hk; subst hk
+              exact ⟨Or.inr rfl, ha, rfl⟩
+          · simp only [hle, if_false]
+            refine ⟨?_, ?_, ?_⟩
+            · intro j hj hact
+              rcases hj with hj | rfl
+              · exact h1 j hj hact
+              · exact UInt32.le_of_lt (UInt32.not_le.mp hle)
+            · intro k hk
+              obtain ⟨a1, a2, a3⟩ := h2 k hk
+              exact ⟨Or.inl a1, a2, a3⟩
+            · intro hn
+              exfalso
+              apply hle
+              rw [(h3 hn).1]
+              exact UInt32.zero_le)
+    refine ⟨?_, ?_, ?_⟩
+    · intro j hj hact
+      apply this.1 j _ hact
+      rcases hj with hj | hj
+      · exact Or.inl (Or.inl hj)
+      · rcases List.mem_cons.mp hj with rfl | hj
+        · exact Or.inl (Or.inr rfl)
+        · exact Or.inr hj
+    · intro k hk
+      obtain ⟨a1, a2, a3⟩ := this.2.1 k hk
+      refine ⟨?_, a2, a3⟩
+      rcases a1 with (a1 | rfl) | a1
+      · exact Or.inl a1
+      · exact Or.inr List.mem_cons_self
+      · exact Or.inr (List.mem_cons_of_mem _ a1)
+    · intro hn
+      refine ⟨(this.2.2 hn).1, ?_⟩
+      intro j hj
+      apply (this.2.2 hn).2 j
+      rcases hj with hj | hj
+      · exact Or.inl (Or.inl hj)
+      · rcases List.mem_cons.mp hj with rfl | hj
+        · exact Or.inl (Or.inr rfl)
+        · exact Or.inr hj
+
+theorem hashPick_spec (w : World) (base : UInt32) :
+    HashInv w base (fun j => j < w.nhosts) ((List.range w.nhosts).foldl (hashStep w base) (0, none)) := by
+  have := hash_fold w base (List.range w.nhosts) (0, none) (fun _ => False)
+    ⟨by intro j hj; exact hj.elim, by simp, by simp⟩
+  simpa using this
+
+theorem firstActive_range' (w : World) (n : Nat) : ∀ a,
+    (∀ j, firstActive w (List.range' a n) = some j →
+        a ≤ j ∧ j < a + n ∧ (w.host j).active ≠ 0 ∧ ∀ i, a ≤ i → i < j → (w.host i).active = 0) ∧
+    (firstActive w (List.range' a n) = none → ∀ i, a ≤ i → i < a + n → (w.host i).active = 0) := by
+  induction n with
+  | zero => intro a; simp [firstActive]; intro i h1 h2; omega
+  | succ n ih =>
+    intro a
+    rw [List.range'_succ]
+    simp only [firstActive]
+    by_cases ha : (w.host a).active ≠ 0
+    · rw [if_pos ha]
+      refine ⟨?_, by simp⟩
+      intro j hj; simp at hj; subst hj
+      exact ⟨Nat.le_refl _, by omega, ha, by intro i h1 h2; omega⟩
+    · rw [if_neg ha]
+      have ha' : (w.host a).active = 0 := by simpa using ha
+      obtain ⟨h1, h2⟩ := ih (a + 1)
+      refine ⟨?_, ?_⟩
+      · intro j hj
+        obtain ⟨b1, b2, b3, b4⟩ := h1 j hj
+        refine ⟨by omega, by omega, b3, ?_⟩
+        intro i hi1 hi2
+        by_cases e : i = a
+        · subst e; exact ha'
+        · exact b4 i (by omega) hi2
+      · intro hn i hi1 hi2
+        by_cases e : i = a
+        · subst e; exact ha'
+        · exact h2 hn i (by omega) (by omega)
+
+/-- GW_BALANCE_RR: the result is the first active host after last_used_ndx, cyclically -/
+theorem rrPick_spec (w : World) :
+    (∀ j, rrPick w = some j → j < w.nhosts ∧ (w.host j).active ≠ 0 ∧
+      ((w.lastUsed + 1).toNat ≤ j ∧ (∀ i, (w.lastUsed + 1).toNat ≤ i → i < j → (w.host i).active = 0) ∨
+       j < (w.lastUsed + 1).toNat ∧ (∀ i, (w.lastUsed + 1).toNat ≤ i → i < w.nhosts → (w.host i).active = 0) ∧
+         ∀ i, i < j → (w.host i).active = 0)) ∧
+    (rrPick w = none → ∀ i, i < w.nhosts → (w.host i).active = 0) := by
+  unfold rrPick
+  dsimp only
+  obtain ⟨f1, f2⟩ := firstActive_range' w (w.nhosts - (w.lastUsed + 1).toNat) (w.lastUsed + 1).toNat
+  cases h1 : firstActive w (List.range' (w.lastUsed + 1).toNat (w.nhosts - (w.lastUsed + 1).toNat)) with
+  | some j =>
+    obtain ⟨a1, a2, a3, a4⟩ := f1 j h1
+    refine ⟨?_, by simp⟩
+    intro j' hj'; simp at hj'; subst hj'
+    exact ⟨by omega, a3, Or.inl ⟨a1, a4⟩⟩
+  | none =>
+    have hnone := f2 h1
+    rw [List.range_eq_range']
+    obtain ⟨g1, g2⟩ := firstActive_range' w (min (w.lastUsed + 1).toNat w.nhosts) 0
+    dsimp only
+    refine ⟨?_, ?_⟩
+    · intro j hj
+      obtain ⟨b1, b2, b3, b4⟩ := g1 j hj
+      refine ⟨by omega, b3, Or.inr ⟨by omega, ?_, fun i hi => b4 i (Nat.zero_le _) hi⟩⟩
+      intro i hi1 hi2; exact hnone i hi1 (by omega)
+    · intro hn i hi
+      by_cases e : (w.lastUsed + 1).toNat ≤ i
+      · exact hnone i e (by omega)
+      · exact g2 hn i (Nat.zero_le _) (by omega)
+
+/-- c11_only_available, soundness: gw_host_get never returns a host without an active proc -/
+theorem hostPick_available (w : World) (key h : Nat) (hh : (hostPick w key).1 = some h) :
+    h < w.nhosts ∧ (w.host h).active ≠ 0 := by
+  unfold hostPick at hh
+  split at hh
+  · split at hh
+    · rename_i h1; simp at hh; subst hh; exact ⟨by omega, h1.2⟩
+    · simp at hh
+  · split at hh
+    · obtain ⟨_, h2, _⟩ := lcPick_spec w
+      obtain ⟨a1, a2, _⟩ := h2 h hh
+      exact ⟨a1, a2⟩
+    · split at hh
+      · split at hh
+        · rename_i j hj
+          simp at hh; subst hh
+          obtain ⟨a1, a2, _⟩ := (rrPick_spec w).1 _ hj
+          exact ⟨a1, a2⟩
+        · simp at hh
+      · split at hh
+        · obtain ⟨_, h2, _⟩ := hashPick_spec w (baseHash w.balance key)
+          obtain ⟨a1, a2, _⟩ := h2 h hh
+          exact ⟨a1, a2⟩
+        · simp at hh
+
+/-- c11_only_available, completeness: with an available host there is no 503 -/
+theorem hostPick_complete (w : World) (key : Nat) (hb : w.balance ≤ 3)
+    (hex : ∃ j, j < w.nhosts ∧ (w.host j).active ≠ 0 ∧ (w.host j).load < intMax) :
+    ∃ h, (hostPick w key).1 = some h := by
+  obtain ⟨j, hj1, hj2, hj3⟩ := hex
+  unfold hostPick
+  split
+  · rename_i hle
+    have : w.nhosts = 1 ∧ j = 0 := by omega
+    obtain ⟨e1, rfl⟩ := this
+    simp [e1, hj2]
+  · split
+    · obtain ⟨h1, h2, h3, _⟩ := lcPick_spec w
+      cases hp : ((List.range w.nhosts).foldl (lcStep w) (intMax, none)).2 with
+      | some k => exact ⟨k, hp⟩
+      | none =>
+        have := h1 j hj1 hj2
+        rw [h3 hp] at this
+        omega
+    · split
+      · cases hp : rrPick w with
+        | some k => exact ⟨k, by simp⟩
+        | none => exact absurd ((rrPick_spec w).2 hp j hj1) hj2
+      · split
+        · obtain ⟨h1, h2, h3⟩ := hashPick_spec w (baseHash w.balance key)
+          cases hp : ((List.range w.nhosts).foldl (hashStep w (baseHash w.balance key)) (0, none)).2 with
+          | some k => exact ⟨k, hp⟩
+          | none => exact absurd ((h3 hp).2 j hj1) hj2
+        · rename_i b0 b1 b23
+          omega
+
+
+/-! ### disable on connect failure, re-enable by the trigger -/
+
+theorem connectError_disables (w : World) (h p pid : Nat)
+    (hc : (w.proc h p).isLocal = false ∨ ((w.proc h p).pid = pid ∧ (w.proc h p).state = .running)) :
+    ((connectError w h p pid).proc h p).state = .overloaded ∧
+    ((connectError w h p pid).proc h p).disabledUntil = w.now + (w.host h).disableTime := by
+  have D := disable_proc w h p h p
+  simp only [and_self, if_true] at D
+  unfold connectError
+  have : (!(w.proc h p).isLocal || ((w.proc h p).pid == pid && (w.proc h p).state == .running)) = true := by
+    rcases hc with hc | ⟨h1, h2⟩
+    · simp [hc]
+    · simp [h1, h2]
+  rw [if_pos this]
+  exact D
+
+theorem checkEnable_frame (w : World) (h q : Nat) (h' p' : Nat) (hne : ¬(h' = h ∧ p' = q)) :
+    ((checkEnable w h q).proc h' p').state = (w.proc h' p').state ∧
+    ((checkEnable w h q).proc h' p').disabledUntil = (w.proc h' p').disabledUntil ∧
+    (checkEnable w h q).now = w.now := by
+  unfold checkEnable
+  split
+  · exact ⟨rfl, rfl, rfl⟩
+  · split
+    · exact ⟨rfl, rfl, rfl⟩
+    · have P := setPState_proc w h q .running h' p'
+      have O := setPState_other w h q .running
+      rw [P.2.2.2.2, P.2.2.1, O.2.2.2.2.1]
+      simp [hne]
+
+theorem checkEnable_enables (w : World) (h p : Nat) (hs : (w.proc h p).state = .overloaded)
+    (ht : (w.proc h p).disabledUntil < w.now) : ((checkEnable w h p).proc h p).state = .running := by
+  unfold checkEnable
+  rw [if_neg (by omega), if_neg (by simp [hs])]
+  have P := setPState_proc w h p .running h p
+  rw [P.2.2.2.2]; simp
+
+theorem checkEnable_now (w : World) (h q : Nat) : (checkEnable w h q).now = w.now := by
+  unfold checkEnable
+  split
+  · rfl
+  · split
+    · rfl
+    · exact (setPState_other w h q .running).2.2.2.2.1
+
+/-- the target proc is back, or still waiting with its time already up -/
+def Due (h p : Nat) (w : World) : Prop :=
+  (w.proc h p).state = .running ∨
+  ((w.proc h p).state = .overloaded ∧ (w.proc h p).disabledUntil < w.now)
+
+theorem restartDeadProc_due (w : World) (h : Nat) (tr : Bool) (q p : Nat) (hd : Due h p w) :
+    Due h p (restartDeadProc w h tr q) ∧ (q = p → ((restartDeadProc w h tr q).proc h p).state = .running) ∧
+    ((w.proc h p).state = .running → ((restartDeadProc w h tr q).proc h p).state = .running) := by
+  by_cases e : q = p
+  · subst e
+    rcases hd with hr | ⟨ho, ht⟩
+    · have : restartDeadProc w h tr q = w := by unfold restartDeadProc; simp [hr]
+      rw [this]; exact ⟨Or.inl hr, fun _ => hr, fun _ => hr⟩
+    · have : restartDeadProc w h tr q = checkEnable w h q := by unfold restartDeadProc; simp [ho]
+      rw [this]
+      have := checkEnable_enables w h q ho ht
+      exact ⟨Or.inl this, fun _ => this, fun _ => this⟩
+  · have hne : ¬(h = h ∧ p = q) := fun ⟨_, h2⟩ => e h2.symm
+    have key : ((restartDeadProc w h tr q).proc h p).state = (w.proc h p).state ∧
+        ((restartDeadProc w h tr q).proc h p).disabledUntil = (w.proc h p).disabledUntil ∧
+        (restartDeadProc w h tr q).now = w.now := by
+      unfold restartDeadProc
+      split
+      · exact ⟨rfl, rfl, rfl⟩
+      · exact checkEnable_frame w h q h p hne
+      · split
+        · have hpq : p ≠ q := fun h2 => e h2.symm
+          simp [World.updProc, hpq]
+        · exact ⟨rfl, rfl, rfl⟩
+      · exact ⟨rfl, rfl, rfl⟩
+      · exact ⟨rfl, rfl, rfl⟩
+    refine ⟨?_, fun h' => absurd h' e, fun hr => by rw [key.1]; exact hr⟩
+    unfold Due; rw [key.1, key.2.1, key.2.2]; exact hd
+
+theorem fold_due (h p : Nat) (f : World → Nat → World) (l : List Nat) (w : World)
+    (hf : ∀ w q, Due h p w → Due h p (f w q) ∧ (q = p → ((f w q).proc h p).state = .running) ∧
+      ((w.proc h p).state = .running → ((f w q).proc h p).state = .running))
+    (hd : Due h p w) :
+    Due h p (l.foldl f w) ∧ (p ∈ l → ((l.foldl f w).proc h p).state = .running) ∧
+    ((w.proc h p).state = .running → ((l.foldl f w).proc h p).state = .running) := by
+  induction l generalizing w with
+  | nil => exact ⟨hd, by simp, fun hr => hr⟩
+  | cons q l ih =>
+    simp only [List.foldl_cons]
+    obtain ⟨d1, r1, k1⟩ := hf w q hd
+    obtain ⟨d2, r2, k2⟩ := ih (f w q) d1
+    refine ⟨d2, ?_, fun hr => k2 (k1 hr)⟩
+    intro hm
+    rcases List.mem_cons.mp hm with rfl | hm
+    · exact k2 (r1 rfl)
+    · exact r2 hm
+
+/-- gw_restart_dead_procs() brings every proc back whose disable time is over -/
+theorem restartDeadProcs_enables (w : World) (h : Nat) (tr : Bool) (p : Nat) (hp : p < (w.host h).nprocs)
+    (hs : (w.proc h p).state = .overloaded) (ht : (w.proc h p).disabledUntil < w.now) :
+    ((restartDeadProcs w h tr).proc h p).state = .running := by
+  unfold restartDeadProcs
+  exact (fold_due h p _ _ w (fun w q hd => restartDeadProc_due w h tr q p hd) (Or.inr ⟨hs, ht⟩)).2.1
+    (by simpa using hp)
+
+theorem checkOverloaded_enables (w : World) (h : Nat) (p : Nat) (hp : p < (w.host h).nprocs)
+    (hs : (w.proc h p).state = .overloaded) (ht : (w.proc h p).disabledUntil < w.now) :
+    ((checkOverloaded w h).proc h p).state = .running := by
+  unfold checkOverloaded
+  refine (fold_due h p _ _ w ?_ (Or.inr ⟨hs, ht⟩)).2.1 (by simpa using hp)
+  intro w q hd
+  have := restartDeadProc_due w h false q p hd
+  by_cases ho : (w.proc h q).state = .overloaded
+  · have e : restartDeadProc w h false q = checkEnable w h q := by unfold restartDeadProc; simp [ho]
+    simp only [ho, if_true]
+    rw [← e]; exact this
+  · simp only [ho, if_false]
+    refine ⟨hd, ?_, fun hr => hr⟩
+    intro e; subst e
+    rcases hd with hr | ⟨ho', _⟩
+    · exact hr
+    · exact absurd ho' ho
+
+theorem hostTimeouts_idle (w : World) (h : Nat) (he : (w.host h).hctxs = []) : hostTimeouts w h = w := by
+  unfold hostTimeouts; simp [he]
+
+/-- c11_disable_reenable, second half: the trigger after the disable time re-enables the proc -/
+theorem triggerHost_enables (w : World) (h p : Nat) (he : (w.host h).hctxs = []) (hp : p < (w.host h).nprocs)
+    (hs : (w.proc h p).state = .overloaded) (ht : (w.proc h p).disabledUntil < w.now) :
+    ((triggerHost w h).proc h p).state = .running := by
+  unfold triggerHost
+  rw [hostTimeouts_idle w h he]
+  dsimp only
+  split
+  · exact checkOverloaded_enables w h p hp hs ht
+  · exact restartDeadProcs_enables w h true p hp hs ht
+
+
+/-! ### small facts used by the property theorems -/
+
+theorem sumTo_nonneg (n : Nat) (f : Nat → Int) (h : ∀ i, i < n → 0 ≤ f i) : 0 ≤ sumTo n f := by
+  induction n with
+  | zero => simp [sumTo]
+  | succ n ih =>
+    simp only [sumTo]
+    have := ih (fun i hi => h i (by omega))
+    have := h n (by omega)
+    omega
+
+theorem sumTo_eq_zero (n : Nat) (f : Nat → Int) (h : ∀ i, i < n → f i = 0) : sumTo n f = 0 := by
+  rw [sumTo_congr n f (fun _ => 0) h, sumTo_zero]
+
+theorem sumTo_pos_iff (n : Nat) (f : Nat → Int) (h : ∀ i, i < n → f i = 0 ∨ f i = 1) :
+    sumTo n f ≠ 0 ↔ ∃ i, i < n ∧ f i = 1 := by
+  induction n with
+  | zero => simp [sumTo]
+  | succ n ih =>
+    simp only [sumTo]
+    have ih' := ih (fun i hi => h i (by omega))
+    have hn := sumTo_nonneg n f (fun i hi => by rcases h i (by omega) with e | e <;> omega)
+    constructor
+    · intro hne
+      rcases h n (by omega) with e | e
+      · have : sumTo n f ≠ 0 := by omega
+        obtain ⟨i, hi, hf⟩ := ih'.mp this
+        exact ⟨i, by omega, hf⟩
+      · exact ⟨n, by omega, e⟩
+    · rintro ⟨i, hi, hf⟩
+      by_cases e : i = n
+      · subst e; omega
+      · have : sumTo n f ≠ 0 := ih'.mpr ⟨i, by omega, hf⟩
+        rcases h n (by omega) with e2 | e2 <;> omega
+
+theorem hostC_nonneg (h : Nat) (c : Option Ctx) : 0 ≤ hostC h c := by
+  unfold hostC; split
+  · split <;> omega
+  · omega
+theorem procC_nonneg (h p : Nat) (c : Option Ctx) : 0 ≤ procC h p c := by
+  unfold procC; split
+  · split <;> omega
+  · omega
+theorem anyProcC_nonneg (c : Option Ctx) : 0 ≤ anyProcC c := by
+  unfold anyProcC; split
+  · split <;> omega
+  · omega
+theorem fdC_nonneg (c : Option Ctx) : 0 ≤ fdC c := by
+  unfold fdC; split
+  · split <;> omega
+  · omega
+
+/-- with active_procs exact, "active_procs ≠ 0" means "some proc is RUNNING" -/
+theorem avail_pos_iff {w : World} (hA : Avail w) (h : Nat) :
+    (w.host h).active ≠ 0 ↔ ∃ p, p < (w.host h).nprocs ∧ (w.proc h p).state = .running := by
+  rw [hA h]
+  unfold runningCnt
+  rw [sumTo_pos_iff _ _ (by intro i _; split <;> simp)]
+  constructor
+  · rintro ⟨i, hi, hf⟩
+    refine ⟨i, hi, ?_⟩
+    by_cases e : (w.proc h i).state = .running
+    · exact e
+    · simp [e] at hf
+  · rintro ⟨i, hi, hf⟩
+    exact ⟨i, hi, by simp [hf]⟩
+
+theorem pickProc_fold_some (w : World) (h : Nat) (l : List Nat) (acc : Option Nat) (ha : acc.isSome) :
+    (l.foldl (pickStep w h) acc).isSome := by
+  induction l generalizing acc with
+  | nil => exact ha
+  | cons q l ih =>
+    simp only [List.foldl_cons]
+    apply ih
+    unfold pickStep
+    split
+    · exact ha
+    · split
+      · simp
+      · split <;> simp
+
+theorem pickProc_fold_complete (w : World) (h : Nat) (l : List Nat) (acc : Option Nat) (p : Nat)
+    (hp : p ∈ l) (hr : (w.proc h p).state = .running) : (l.foldl (pickStep w h) acc).isSome := by
+  induction l generalizing acc with
+  | nil => simp at hp
+  | cons q l ih =>
+    simp only [List.foldl_cons]
+    rcases List.mem_cons.mp hp with rfl | hp
+    · apply pickProc_fold_some
+      unfold pickStep
+      rw [if_neg (by simp [hr])]
+      split
+      · simp
+      · split <;> simp
+    · exact ih _ hp
+
+/-- a host with an active proc always yields a proc in GW_STATE_INIT -/
+theorem pickProc_complete {w : World} (hA : Avail w) (h : Nat) (hact : (w.host h).active ≠ 0) :
+    ∃ p, pickProc w h = some p := by
+  obtain ⟨p, hp, hr⟩ := (avail_pos_iff hA h).mp hact
+  have := pickProc_fold_complete w h (List.range (w.host h).nprocs) none p (by simpa using hp) hr
+  unfold pickProc
+  cases hq : (List.range (w.host h).nprocs).foldl (pickStep w h) none with
+  | none => simp [hq] at this
+  | some q => exact ⟨q, rfl⟩
+
+theorem step_pendClose (w : World) (op : Op) : (step w op).pendClose = 0 := by
+  unfold step schedRun; rfl
+
+theorem run_pendClose (w : World) (ops : List Op) (h0 : w.pendClose = 0) : (run w ops).pendClose = 0 := by
+  unfold run
+  exact foldl_inv (fun w : World => w.pendClose = 0) _ _ _ h0 (fun _ _ _ => step_pendClose _ _)
+
+/-- the driver's re-tabulation is the identity -/
+theorem tab_eq {α : Type} (n : Nat) (f : Nat → α) : tab (Array.ofFn (n := n) fun i => f i.val) f = f := by
+  funext i
+  unfold tab
+  split
+  · simp
+  · rfl
+
+theorem compact_eq (w : World) : compact w = w := by
+  unfold compact
+  dsimp only
+  rw [tab_eq, tab_eq]
+  have : tab2 (Array.ofFn (n := w.nhosts) fun h => Array.ofFn
+      (n := (List.range w.nhosts).foldl (fun m h => max m (w.host h).nprocs) 0) fun p => w.proc h.val p.val) w.proc
+      = w.proc := by
+    funext i j
+    unfold tab2
+    split
+    · split
+      · simp
+      · rfl
+    · rfl
+  rw [this]
+
+
+/-! ### the retry budget -/
+
+theorem backendError_rc (w : World) (s : Nat) : (backendError w s).1 = .finished := rfl
+
+theorem writeErrorTail_rc (w : World) (s : Nat) : (writeErrorTail w s).1 = .finished := rfl
+
+theorem reconnect_rc (w : World) (s : Nat) :
+    (reconnect w s).1 = .comeback ∨ (reconnect w s).1 = .finished := by
+  unfold reconnect; dsimp only
+  split
+  · exact Or.inr rfl
+  · exact Or.inl rfl
+
+theorem hostGet_fst (w : World) (s : Nat) : (hostGet w s).1 = (hostPick w (w.auxOf s).key).1 := by
+  unfold hostGet; dsimp only
+  split <;> simp_all
+
+theorem backendClose_hosts (w : World) (s : Nat) (h : Nat) :
+    ((backendClose w s).host h).active = (w.host h).active ∧
+    ((backendClose w s).host h).nprocs = (w.host h).nprocs := by
+  have S := reach_static (reach_backendClose w s)
+  refine ⟨?_, S.nprocs h⟩
+  -- active_procs is only moved by gw_proc_set_state
+  unfold backendClose
+  split
+  · rfl
+  · rename_i c _
+    dsimp only
+    cases c.link.fd <;> cases c.link.host <;> cases c.link.proc <;>
+      simp [World.updHost, World.updLink, World.updAux, World.updSlot, World.updProc] <;>
+      (try split) <;> simp_all
+
+/-- a retry goes to a host gw_host_get() chose — hence (c11_only_available) one with an active proc —
+    and restarts the request in GW_STATE_INIT on it -/
+theorem reconnect_comeback (w : World) (s : Nat) (hc : (reconnect w s).1 = .comeback) :
+    ∃ h, (hostPick (backendClose w s) ((backendClose w s).auxOf s).key).1 = some h ∧
+      h < w.nhosts ∧ (w.host h).active ≠ 0 ∧
+      (∀ l, lk (reconnect w s).2 s = some l → l.host = some h ∧ l.state = .init) := by
+  unfold reconnect at hc ⊢
+  dsimp only at hc ⊢
+  cases hg : (hostGet (backendClose w s) s).1 with
+  | none => simp [hg] at hc
+  | some h =>
+    simp only [hg]
+    rw [hostGet_fst] at hg
+    obtain ⟨a1, a2⟩ := hostPick_available _ _ _ hg
+    have S := reach_static (reach_backendClose w s)
+    refine ⟨h, hg, by rw [← S.nhosts]; exact a1, by rw [← (backendClose_hosts w s h).1]; exact a2, ?_⟩
+    intro l hl
+    rw [lk_updLink, if_pos rfl, lk_hostAssign] at hl
+    cases hl' : lk (hostGet (backendClose w s) s).2 s with
+    | none => simp [hl'] at hl
+    | some l0 => simp [hl'] at hl; rw [← hl]; simp
+
+theorem restartDeadProc_slot (w : World) (h : Nat) (tr : Bool) (p : Nat) :
+    (restartDeadProc w h tr p).slot = w.slot := by
+  unfold restartDeadProc
+  split
+  · rfl
+  · unfold checkEnable
+    split
+    · rfl
+    · split
+      · rfl
+      · exact (setPState_other w h p .running).2.2.2.2.2.2
+  · split <;> rfl
+  · rfl
+  · rfl
+
+theorem restartIfLocal_slot (w : World) (s : Nat) : (restartIfLocal w s).slot = w.slot := by
+  unfold restartIfLocal
+  split
+  · split
+    · unfold restartDeadProcs
+      exact foldl_inv (fun w' : World => w'.slot = w.slot) _ _ _ rfl
+        (fun b a hb => (restartDeadProc_slot b _ false a).trans hb)
+    · rfl
+  · rfl
+
+theorem restartIfLocal_auxOf (w : World) (s : Nat) : (restartIfLocal w s).auxOf s = w.auxOf s := by
+  unfold World.auxOf; rw [restartIfLocal_slot]
+
+/-- gw_write_error() before the request was sent: at most 5 reconnects, then give up -/
+theorem writeError_budget (w : World) (s : Nat)
+    (hst : (w.linkOf s).state = .init ∨ (w.linkOf s).state = .connectDelayed) :
+    (5 ≤ (w.auxOf s).reconnects → (writeError w s).1 = .finished) ∧
+    ((w.auxOf s).reconnects < 5 →
+      (writeError w s).1 = .finished ∨
+      ((writeError w s).1 = .comeback ∧
+        (writeError w s) = reconnect ((restartIfLocal w s).updAux s
+          fun a => { a with reconnects := a.reconnects + 1 }) s)) := by
+  unfold writeError
+  rw [if_pos hst]
+  dsimp only
+  rw [restartIfLocal_auxOf]
+  refine ⟨fun h5 => ?_, fun h5 => ?_⟩
+  · rw [if_neg (by omega)]; rfl
+  · rw [if_pos h5]
+    rcases reconnect_rc ((restartIfLocal w s).updAux s fun a => { a with reconnects := a.reconnects + 1 }) s with h | h
+    · exact Or.inr ⟨h, rfl⟩
+    · exact Or.inl h
+
+/-- gw_recv_response_error(): retried only if nothing was sent and no response begun, ≤ 5 times -/
+theorem recvResponseError_budget (w : World) (s : Nat) :
+    (((w.auxOf s).started = true ∨ (w.auxOf s).bytesOut ≠ 0 ∨ 5 ≤ (w.auxOf s).reconnects) →
+      (recvResponseError w s).1 = .finished) ∧
+    ((recvResponseError w s).1 = .comeback →
+      (w.auxOf s).started = false ∧ (w.auxOf s).bytesOut = 0 ∧ (w.auxOf s).reconnects < 5) := by
+  unfold recvResponseError
+  dsimp only
+  by_cases h1 : (!(w.auxOf s).started && (w.auxOf s).bytesOut == 0) = true
+  · rw [if_pos h1]
+    have h1' : (w.auxOf s).started = false ∧ (w.auxOf s).bytesOut = 0 := by simpa using h1
+    by_cases h2 : (w.auxOf s).reconnects < 5
+    · rw [if_pos h2]
+      refine ⟨?_, fun _ => ⟨h1'.1, h1'.2, h2⟩⟩
+      rintro (h | h | h)
+      · simp [h1'.1] at h
+      · exact absurd h1'.2 h
+      · omega
+    · rw [if_neg h2]
+      exact ⟨fun _ => rfl, fun h => by simp [backendError] at h⟩
+  · rw [if_neg h1]
+    exact ⟨fun _ => rfl, fun h => by simp [backendError] at h⟩
+
 end LtVerif.Gw
